@@ -380,7 +380,10 @@ Example cliff_grid_states_closed :
   forallb (fun s => forallb (fun ns => pos_mem ns (cliff_states cliff_grid)) (cliff_succs cliff_grid s))
           (cliff_states cliff_grid) = true /\
   cliff_is_absorbing cliff_grid (11, 0)%Z = true /\ pos_mem (11, 0)%Z (cliff_states cliff_grid) = true.
-Proof. repeat split; vm_compute; reflexivity. Qed.
+Proof.
+  split; [vm_compute; reflexivity|]. split; [vm_compute; reflexivity|].
+  split; vm_compute; reflexivity.
+Qed.
 
 (* for other GridMDP grids the absorbing-state clause fails in the same way: "sg." *)
 Theorem cliff_closure_refuted :
